@@ -192,6 +192,8 @@ def build_type(dt):
     if k == 'tuple':
         if dt.get('limit'):
             return fd.LimitsType(build_type(dt['els'][0]))
+        if dt.get('status'):      # tuple(enum of standard status codes, string) built by the convenience class
+            return fd.StatusType(*[m['n'] for m in dt['els'][0]['mem']])
         return fd.TupleOf(*[build_type(e) for e in dt['els']])
     if k == 'struct':
         members = {m['n']: build_type(m['t']) for m in dt['mem']}
@@ -210,7 +212,7 @@ def second_object(obj, dt):
 def rebuild_type(obj):
     """the client's view: datatype rebuilt from the JSON round trip of the description"""
     fd = frappy()
-    return fd.get_datatype(json.loads(json.dumps(obj.export_datatype())))
+    return fd.get_datatype(json.loads(json.dumps(obj.export_datatype())), 'par')      # as the client does, with a parameter name
 
 
 # ---------------------------------------------------------------------- gamma: values
@@ -1051,8 +1053,8 @@ def rt_records(obj, reb, dt, av, conc, extra=None):
     # the client's path: str(cache item) -> setParameterFromString (minus the network) -> server
     cssame = False
 
-    def client_set():
-        # the real SecopClient.setParameterFromString, with the network replaced by a recorder
+    def client_set(from_string=True):
+        # the real SecopClient.setParameterFromString / setParameter, with the network replaced by a recorder
         from frappy.client import SecopClient
         sent = {}
 
@@ -1070,8 +1072,10 @@ def rt_records(obj, reb, dt, av, conc, extra=None):
         c.modules = {'m': {'parameters': {'p': {'datatype': reb}}}}
         c.identifier = {('m', 'p'): 'm:p'}
         c.cache = {('m', 'p'): None}
-        text = str(CacheItem(cval, datatype=reb))
-        c.setParameterFromString('m', 'p', text)
+        if from_string:
+            c.setParameterFromString('m', 'p', str(CacheItem(cval, datatype=reb)))
+        else:
+            c.setParameter('m', 'p', cval)          # the client's own value of the parameter, sent back
         data = json.loads(json.dumps(sent['data'], allow_nan=False))   # the data part of the change request
         return obj.validate(obj.import_value(data))
     cs, rawc = outcome_of(client_set, dt, av, conc)
@@ -1080,7 +1084,8 @@ def rt_records(obj, reb, dt, av, conc, extra=None):
             cssame = reb.to_string(reb.validate(reb.import_value(json.loads(json.dumps(obj.export_value(rawc)))))) == t1
         except Exception:   # noqa
             cssame = False
-    recs.append(dict(base, kind='rt.client', cs=cs, cssame=cssame))
+    cw, _ = outcome_of(lambda: client_set(False), dt, av, conc)
+    recs.append(dict(base, kind='rt.client', cs=cs, cssame=cssame, cw=cw))
     return recs
 
 
@@ -1098,7 +1103,7 @@ def rt_children(dt, av):
 
 # ------------------------------------------------------------------- TLC as the judge
 
-SPEC_FIELDS = ('kind', 'dt', 'c', 'p', 'path', 'out', 'v', 'j', 'v1', 'v2', 'ts', 'v3', 't2same', 'cs', 'cssame',
+SPEC_FIELDS = ('kind', 'dt', 'c', 'p', 'path', 'out', 'v', 'j', 'v1', 'v2', 'ts', 'v3', 't2same', 'cs', 'cssame', 'cw',
                'a', 'b', 'passes', 'd1', 'd2', 'd2x', 'd3', 'probes', 'before', 'after')
 
 
@@ -1265,6 +1270,9 @@ def mutate_everything(obj):
         except Exception:   # noqa
             pass
     if isinstance(obj, (fd.FloatRange, fd.ScaledInteger)):
+        if '$' in obj.unit:
+            obj.set_main_unit('X')          # replaces the $ of the copy only
+            done.append('main unit')
         sp(obj, 'unit', 'mutated')
         sp(obj, 'fmtstr', '%.9f')
         sp(obj, 'absolute_resolution', 0.5)
